@@ -3,8 +3,6 @@ package main
 // check.go — the registered check: one property, all its claimed obligations, evidence, verdict.
 
 import (
-	"sync/atomic"
-	"reflect"
 	"bufio"
 	"encoding/json"
 	"flag"
@@ -12,8 +10,10 @@ import (
 	"os"
 	"os/exec"
 	"path/filepath"
+	"reflect"
 	"sort"
 	"strings"
+	"sync/atomic"
 	"time"
 
 	"golang.org/x/tools/go/ssa"
@@ -341,29 +341,29 @@ func cmdCheck(args []string) int {
 	ev.Violations = violations
 	cov := map[string]any{
 		"obligations": total - len(kfHit), "discharged": proved, "not_attempted_fail_fast": notAttempted,
-		"obligations_generated":      total,
-		"known_finding_obligations":  len(kfHit),
-		"inactive_clauses":           len(e.Specs.Inactive),
+		"obligations_generated":        total,
+		"known_finding_obligations":    len(kfHit),
+		"inactive_clauses":             len(e.Specs.Inactive),
 		"unclaimed_safety_obligations": unclaimed,
-		"trusted_function_contracts":  trustedFns,
-		"solver_contradictions":       contradictions,
-		"must_fail_corpus":            corpus,
-		"checker_cmd":               fmt.Sprintf("/verif/bin/govc check --property %s --tier %s  (VC generator over go/ssa of /repo working tree, -tags verif; solvers z3-new 5.1.0, z3 4.8.12, cvc5 1.0 raced)", P, *tier),
-		"trusted_base":              trustedBase(e, keys),
-		"functions_under_contract":  fnsUnder,
-		"structural_obligations":    structural,
-		"solver_wins":               solverStats.wins,
-		"solver_ms":                 solverStats.ms,
-		"reachability_covers":       covers,
-		"vacuous_functions":         vacuous,
-		"samples":                   samples,
-		"known_findings_hit":        len(kfHit),
-		"contract_scan_assume_hits": e.Specs.Scan,
-		"spec_errors":               specBroken,
-		"integer_semantics":         "mathematical integers with the declared type's range as a fact on inputs; overflow NOT checked (unchecked assumption)",
-		"undecided_clauses":         undecidedClauses[P],
-		"bounded":                   []string{},
-		"assumed_frames":            assumedFrames(e, keys),
+		"trusted_function_contracts":   trustedFns,
+		"solver_contradictions":        contradictions,
+		"must_fail_corpus":             corpus,
+		"checker_cmd":                  fmt.Sprintf("/verif/bin/govc check --property %s --tier %s  (VC generator over go/ssa of /repo working tree, -tags verif; solvers z3-new 5.1.0, z3 4.8.12, cvc5 1.0 raced)", P, *tier),
+		"trusted_base":                 trustedBase(e, keys),
+		"functions_under_contract":     fnsUnder,
+		"structural_obligations":       structural,
+		"solver_wins":                  solverStats.wins,
+		"solver_ms":                    solverStats.ms,
+		"reachability_covers":          covers,
+		"vacuous_functions":            vacuous,
+		"samples":                      samples,
+		"known_findings_hit":           len(kfHit),
+		"contract_scan_assume_hits":    e.Specs.Scan,
+		"spec_errors":                  specBroken,
+		"integer_semantics":            "mathematical integers with the declared type's range as a fact on inputs; overflow NOT checked (unchecked assumption)",
+		"undecided_clauses":            undecidedClauses[P],
+		"bounded":                      []string{},
+		"assumed_frames":               assumedFrames(e, keys),
 	}
 	for k, v := range map[string]any{"unclaimed_safety_obligations": unclaimed, "trusted_function_contracts": trustedFns, "functions_under_contract": fnsUnder, "reachability_covers": covers} {
 		if rv := reflect.ValueOf(v); !rv.IsValid() || (rv.Kind() == reflect.Slice && rv.IsNil()) {
